@@ -154,7 +154,7 @@ def _mk(cid, r, blk, **f):
          "verb": int(r.integers(0, 3)), "fret": _pick(r, ["np", "py"]),
          "cont": f.get("cont") or (_pick(r, ["list", "tuple", "single"]) if len(sizes) == 1 else _pick(r, ["list", "tuple"])),
          "sc": f.get("sc") or (1.0 if bounds == "default" else _pick(r, [1.0, 0.3, 3.0, 1e-3, 1e-6, 1e3], [0.6, 0.1, 0.1, 0.08, 0.06, 0.06])),
-         "eqb": bool(f.get("eqb", False)), "allpos": bool(f.get("allpos", False))}
+         "eqb": bool(f.get("eqb", False)), "allpos": bool(f.get("allpos", False)), "fs": float(f.get("fs", 1.0))}
     # the variable signals may be slices of one larger base signal (SignalSlice writes through to its base)
     via = f.get("via") or _pick(r, ["direct", "slices", "strided"], [0.88, 0.08, 0.04])
     if via == "strided" and not (len(sizes) == 2 and sizes[0] - sizes[1] in (0, 1)):
@@ -202,6 +202,9 @@ CORNERS = [
     dict(name="restart-after-short-run", hist="short", runs=2),
     dict(name="long-history-small-move", obj="invsum", hist="conv", move=0.01, bounds="ss", sc=1.0),
     dict(name="two-signals-initialised-from-the-same-array", sizes=[3, 3], kinds=["vec", "vec"], bounds="ss", share="same-array", via="direct"),
+    # compliances of 1e-10 (SI units) make the multiplier tiny: the user then has to tighten the *absolute* bisection tolerance
+    dict(name="tiny-sensitivities-tight-bisection", obj="invsum", tol=1e-14, fs=1e-10, hist="conv", bounds="ss"),
+    dict(name="tiny-sensitivities-tight-bisection-vv", obj="invsum", tol=1e-15, fs=1e-9, bounds="vv"),
     dict(name="integer-typed-initial-design", sizes=[4, 2], kinds=["vec", "vec"], bounds="default", share="int-ones", via="direct", obj="invsum"),
 ]
 
@@ -489,7 +492,7 @@ def run_case(case, ctx):
     kind = case["obj"]
     P = {"kind": kind, "a": np.ones(n), "off": 0.0, "idx": np.arange(n)}
     if kind in ("invsum", "mixed", "zerograd"):
-        P["c"] = rng.uniform(0.1, 5.0, n) * sc ** 2
+        P["c"] = rng.uniform(0.1, 5.0, n) * sc ** 2 * float(case.get("fs", 1.0))
     if kind == "invpow":
         P["p"] = int(rng.choice([2, 3]))
         P["c"] = rng.uniform(0.01, 0.5, n) * sc ** (P["p"] + 1)
